@@ -343,6 +343,20 @@ Section Conv.
         * exfalso. exact (NC i l b0 I NL C Hd).
   Qed.
 
+  (* frame: a digest that no conversion of the schedule commits keeps the label it has (source blobs in particular) *)
+  Lemma label_frame : forall k ls os s0 d x,
+    (forall b, ~ commits_to k ls os d b) ->
+    alookup (sstore s0) d = Some x -> alookup (sstore (exec k ls s0 os)) d = Some x.
+  Proof.
+    intros k ls os. induction os as [|o os IH] using rev_ind; intros s0 d x NC E; [exact E|].
+    rewrite exec_app. simpl.
+    assert (E' : alookup (sstore (exec k ls s0 os)) d = Some x).
+    { apply IH; [|exact E]. intros b (i & l & I & R). apply (NC b). exists i, l. split; [apply in_or_app; left; exact I|exact R]. }
+    destruct (step_store k ls (exec k ls s0 os) o d) as [(i & l & b & Eo & NL & C & Hd & _)|[_ Keep]].
+    - exfalso. apply (NC b). exists i, l. repeat split; try assumption. apply in_or_app. right. left. exact Eo.
+    - apply Keep. exact E'.
+  Qed.
+
   (* ---- the shared map under every schedule ---- *)
   Lemma step_smap : forall k ls s o, smap (step k ls s o) = assign (smap s) (map_event k ls o).
   Proof.
